@@ -6,14 +6,15 @@ S0  tools/extract/StructFields.c -> lean/OpusModel/Gen/StructFields.lean: every 
     self-pointer scan of used objects, the member values after init.  pre_build cross-checks the member lists
     against the compiler's debug information (gdb ptype/o, nested).
 S1  OpusProps.C12: reset_eq_init / reset_indistinguishable / dec_reset_eq_init on OpusModel.ResetState,
-    reset_needs_repair, no_self_pointers / get_size_covers_state / model_fields_cover_struct / init_matches_code on the
+    no_self_pointers / get_size_covers_state / model_fields_cover_struct / init_matches_code on the
     regenerated description.
 S3  harness/c12_state.c `tie`: members after init / after OPUS_RESET_STATE (states reached by random histories and
     poisoned states) / after every setting request, compared exactly with the Lean model (suite `misc`).
 S4  harness/c12_twin.c: twin objects — memcpy clone vs. original, reset vs. new object with the settings replayed,
     same history twice (zero-filled vs 0x5A-poisoned heap and stack, decoy objects alive) — for encoder, decoder, multistream
     encoder/decoder, projection encoder/decoder, repacketizer, at every OPUS_VERIF_ARCH_CAP level; byte equality of
-    packets, PCM bit patterns, final ranges and getter values.  Every difference is a witness; encoder/decoder reset
+    packets, PCM bit patterns, final ranges and getter values.  corpus/C12/*.json (the six witnesses of the reset defect
+    repaired by 14e3a558) run first.  Every difference is a witness; encoder/decoder reset
     differences are attributed to the surviving member that causes them (c12_state attrib)."""
 import hashlib, os, re, subprocess, time
 from concurrent.futures import ThreadPoolExecutor
@@ -27,7 +28,7 @@ SOURCES = ['src/opus_encoder.c', 'src/opus_decoder.c', 'celt/celt_encoder.c', 'c
            'src/opus_multistream_encoder.c', 'src/opus_multistream_decoder.c', 'src/opus_projection_encoder.c',
            'src/opus_projection_decoder.c', 'src/repacketizer.c', 'src/opus_private.h', 'celt/x86/x86cpu.c']
 REQUIRED_THEOREMS = ['OpusProps.C12.reset_eq_init', 'OpusProps.C12.reset_indistinguishable',
-                     'OpusProps.C12.reset_needs_repair', 'OpusProps.C12.dec_reset_eq_init',
+                     'OpusProps.C12.dec_reset_eq_init',
                      'OpusProps.C12.no_self_pointers', 'OpusProps.C12.get_size_covers_state',
                      'OpusProps.C12.model_fields_cover_struct', 'OpusProps.C12.init_matches_code']
 UNPROVED = [
@@ -61,7 +62,7 @@ ASSUMPTIONS = [
 ]
 TRUSTED = ['gdb (ptype/o) for the cross-check of the extractor\'s member lists',
            'the address-range classification of pointers in tools/extract/StructFields.c (static image = [__executable_start, end))']
-LEVEL_TEXT = ('partial: kernel-checked theorems that OPUS_RESET_STATE (with the repair of DESIGN 9-F2) leaves an encoder / decoder '
+LEVEL_TEXT = ('partial: kernel-checked theorems that OPUS_RESET_STATE leaves an encoder / decoder '
               'indistinguishable from a new one carrying the same settings, for every reachable state and every later call '
               'sequence, on a model whose init / reset / setting requests are transcribed member by member and tied exactly to '
               'the code, and whose encode call is a read/write footprint with uninterpreted DSP oracles; decide-checked facts on '
@@ -106,7 +107,7 @@ def _twin(ctx, variant='plain'):
 
 
 def _state(ctx, variant='plain'):
-    return _harness(ctx, 'c12_state', variant, '-O1')
+    return _harness(ctx, 'c12_state', variant, '-O0')     # 4-file white-box TU: only its struct accesses matter, -O0 compiles in seconds
 
 
 # ------------------------------------------------------------------ S0: cross-check with the debug information
@@ -193,7 +194,7 @@ def _differing(mm):
 
 
 def classify(ctx, tie, mm):
-    """A member that the implementation's OPUS_RESET_STATE leaves but the (repaired) model resets is a property question:
+    """A member that the implementation's OPUS_RESET_STATE leaves but the model resets is a property question:
     it is a violation iff the twin search exhibits histories on which reset and a new object differ because of it."""
     op, diff = _differing(mm)
     if op not in ('encreset', 'decreset') or not diff:
@@ -322,11 +323,33 @@ def _reset_witnesses(ctx):
     return wits
 
 
+def _corpus(ctx):
+    """Minimised past failures (corpus/C12/*.json) — run before anything else."""
+    import glob, json
+    wits, n = [], 0
+    h = _twin(ctx, 'plain')
+    for path in sorted(glob.glob(os.path.join(common.VERIF, 'corpus', 'C12', '*.json'))):
+        for c in json.load(open(path)).get('cases', []):
+            rc, out, err = _run([h, 'run', c['mode'], c['kind'], str(c['seed']), str(c['index']), '1'], timeout=300)
+            n += 1
+            m = next((LINE.match(l) for l in out.split('\n') if LINE.match(l)), None)
+            if rc != 0 or m is None or m.group(8) == 'DIFF':
+                wits.append({
+                    'suite': 'corpus-%s-%s' % (c['mode'], c['kind']),
+                    'input': 'c12_twin case %s %s %d %d corpus=%s (%s)' % (c['mode'], c['kind'], c['seed'], c['index'],
+                                                                        os.path.basename(path), c.get('cause', '')),
+                    'expected': ('op %s %s -> %s' % (m.group(9), m.group(10), m.group(11))) if m and m.group(9) else 'twin objects answer identically',
+                    'observed': ('op %s %s -> %s' % (m.group(9), m.group(10), m.group(12))) if m and m.group(9) else 'exit %d: %s' % (rc, (err or out)[-300:]),
+                    'why': 'a recorded past failure differs again: ' + c.get('cause', '')})
+    return n, wits
+
+
 def search(ctx):
     t0 = time.time()
+    n_corpus, corpus_w = _corpus(ctx)
     jobs = _jobs(ctx)
-    cases, classes, samples, witnesses, per = 0, set(), [], [], {}
-    crashed = []
+    cases, classes, samples, witnesses, per = n_corpus, set(), [], [], {}
+    crashed = list(corpus_w)
     for j, rc, out, err in _twin_run(ctx, jobs):
         mode, kind, first, count, cap, variant = j
         got = 0
@@ -369,13 +392,14 @@ def search(ctx):
                       'and getter values: clone vs original (original then poisoned and freed), reset vs new object with the '
                       'settings replayed, same history under zero-filled vs 0x5A-poisoned heap+stack with decoy objects; plain and ASan/UBSan builds; '
                       'RTCD caps %s + uncapped' % (CAPS_QUICK if ctx.quick else CAPS_THOROUGH),
+            'corpus_cases': n_corpus, 'corpus_failures': len(corpus_w),
             'per_suite_ok_diff': {k: list(v) for k, v in sorted(per.items())},
             'causes': sorted(set(_ckey(w['cause']) for w in witnesses if w['cause'])),
             'samples': samples, 'witnesses': crashed + out_w}
 
 
 def replay(ctx, obj):
-    m = re.match(r'c12_twin case (\w+) (\w+) (\d+) (\d+)(?: OPUS_VERIF_ARCH_CAP=(\d+))?(?: variant=(\w+))?', obj.get('input', ''))
+    m = re.match(r'c12_twin case (\w+) (\w+) (\d+) (\d+)(?: OPUS_VERIF_ARCH_CAP=(\d+))?(?: variant=(\w+))?', obj.get('input', ''))   # corpus witnesses use the same prefix
     if not m:
         print('replay: not a twin witness; re-running the check')
         os.execv('/usr/bin/env', ['env', 'python3', os.path.join(common.VERIF, 'tools', 'check.py'), 'C12', '--tier', obj.get('tier', 'quick')])
